@@ -31,6 +31,17 @@ func (p *ConfigProp[T]) Read() T {
 	return commit.ref().Get()
 }
 
+// The value that will be in force once what is staged has been committed (the value in force, if
+// nothing is staged). Verification looks at this one, so that a value that is going to be refused
+// is never committed and no component can have read it in the meantime.
+func (p *ConfigProp[T]) pending() T {
+	commit, _ := p.value.Load()
+	if staged, ok := commit.stagedValue.Get(); ok {
+		return staged.Get()
+	}
+	return commit.ref().Get()
+}
+
 func (p *ConfigProp[T]) OnChange(fn event.EventFn[T]) event.Unsubscribe {
 	return p.onChange.Subscribe(fn)
 }
